@@ -165,6 +165,7 @@ func init() {
 		c.ruleDivExit()
 		c.ruleReadFileErr()
 		c.ruleTerminates()
+		c.ruleBounds()
 		c.ruleReqResult()
 		c.ruleMainExit()
 		c.ruleIgnoreScopeLineUnadj()
@@ -172,6 +173,11 @@ func init() {
 	registerProp(&propDef{ID: "C17", Rules: func(c *Ctx) {
 		c.ruleCodeTable()
 		c.ruleReportGate()
+		c.ruleIgnoreScope()
+		c.only([]string{"IGNORE-GATE", "FLOOR"}, func() {
+			c.ruleSitesTONL()
+			c.ruleSitesPKGO()
+		})
 		c.rulePosInFile()
 		c.ruleMainExit()
 		c.ruleHierarchy()
@@ -184,6 +190,7 @@ func init() {
 		c.ruleImportResolution()
 		c.ruleMatcherShape()
 		c.ruleTypeIdent()
+		c.ruleQueries()
 		c.ruleLangEq("@implements")
 		c.ruleAttach("@implements")
 		c.ruleReportGate("implements")
@@ -219,6 +226,7 @@ func init() {
 		c.ruleWalkRoot("immutable", "constructor", "testonly", "packageonly")
 		c.rulePrune("immutable", "constructor", "testonly", "packageonly")
 		c.rulePrunePred()
+		c.ruleGateBeforeDedup("testonly", "packageonly")
 		c.rulePosCompare()
 		c.ruleReaderState()
 		c.only([]string{"RECEIVER-BY-OBJECT", "CALLEE-BY-OBJECT", "CTOR-EXEMPTION", "DEDUP", "FLOOR"}, func() {
@@ -233,7 +241,7 @@ func init() {
 		c.ruleAliasAll()
 		c.ruleTypeInfoHelpers()
 		c.ruleNoSyntacticType()
-		c.only([]string{"TYPE-RESOLVE", "NOT-POINTER", "FLOOR"}, func() {
+		c.only([]string{"TYPE-RESOLVE", "NOT-POINTER", "IMMUTABLE-INDEX", "CONSTRUCTOR-INDEX", "TYPES-INDEX", "METHODS-INDEX", "FLOOR"}, func() {
 			c.ruleSitesIMM()
 			c.ruleSitesCTOR()
 			c.ruleSitesTONL()
